@@ -67,11 +67,11 @@ Section Trans.
       trans (ECall t k) (upd t (TInCb r b snap called k n todo))
   | tr_done t r b snap called k pc todo : l_thr st t = TInCb r b snap called k pc todo ->
       trans (EDone t k) (upd t (TPass r b snap (called ++ [k]) todo))
-  | tr_unlock_col t r b snap called : l_thr st t = TPass r b snap called [] -> trans (EUnlock t) (rel t (TColU r b))
+  | tr_unlock_col t r b snap called : l_thr st t = TPass r b snap called [] -> trans (EUnlock t) (rel t (TColU r b snap))
   | tr_unlock_add t k b : l_thr st t = TAddL k b -> trans (EUnlock t) (rel t (TAddU k b))
   | tr_unlock_rem t k b : l_thr st t = TRemL k b -> trans (EUnlock t) (rel t (TRemU k b))
   | tr_unlock_des t i b : l_thr st t = TDesL i b -> trans (EUnlock t) (rel t (TDesU i b))
-  | tr_ec t r b : l_thr st t = TColU r b -> trans (EEC t r) (upd t TIdle)
+  | tr_ec t r b snap : l_thr st t = TColU r b snap -> trans (EEC t r) (upd t TIdle)
   | tr_ra t k b : l_thr st t = TAddU k b -> trans (ERA t k) (upd t TIdle)
   | tr_rr t k b : l_thr st t = TRemU k b -> trans (ERR t k) (upd t TIdle)
   | tr_rx t i b : l_thr st t = TDesU i b -> trans (ERX t i) (upd t TIdle).
@@ -109,7 +109,7 @@ Definition holds (x : tstate) : bool :=
 Definition op_of (u : Z) (x : tstate) : option (nat * ev * ev) :=
   match x with
   | TIdle => None
-  | TCol r b | TPass r b _ _ _ | TInCb r b _ _ _ _ _ | TColU r b => Some (b, EBC u r, EEC u r)
+  | TCol r b | TPass r b _ _ _ | TInCb r b _ _ _ _ _ | TColU r b _ => Some (b, EBC u r, EEC u r)
   | TAdd k b | TAddL k b | TAddU k b => Some (b, EBA u k, ERA u k)
   | TRem k b | TRemL k b | TRemU k b => Some (b, EBR u k, ERR u k)
   | TDes i b | TDesL i b | TDesU i b => Some (b, EBX u i, ERX u i)
